@@ -55,8 +55,19 @@ THEOREMS = [
     "Scenic.C19.runSteps_refines_bigstep",
     "Scenic.C19.lockstep_independent",
     "Scenic.C19.sequence_independent",
+    # round 4: Options -> DiscreteRange -> random.choices -> Multiplexer as a function of the raw uniform value
+    "Scenic.C19.selectIndex_wf",
+    "Scenic.C19.select_interval",
+    "Scenic.C19.select_interval_length",
+    "Scenic.C19.select_partition",
+    "Scenic.C19.optionsSelect_of_interval",
+    "Scenic.C19.optionsSelect_lands",
+    "Scenic.C19.weightedPick_entry",
+    "Scenic.C19.options_raw_uniform_refines",
+    "Scenic.C19.options_raw_uniform_refines_gen",
+    "Scenic.C19.optionsSelect_negative_agrees",
 ]
-SIDE = ["Scenic.C19.gen_config_wf", "Scenic.C19.gen_copies_operand"]
+SIDE = ["Scenic.C19.gen_config_wf", "Scenic.C19.gen_copies_operand", "Scenic.C19.gen_select_wf"]
 
 FINGERPRINTS = {
     "_invokeSubBehavior": ("src/scenic/core/dynamics/invocables.py", "Invocable._invokeSubBehavior"),
@@ -943,6 +954,131 @@ def corr_choices(ctx):
         ctx.hist("choices_index", "DISAGREE", bad)
 
 
+# --------------------------------------------------------------------------- round 4: Options as a function of random()
+def real_select(opts, u):
+    """`Options({v: w})` constructed and sampled by the real code while `random()` returns `u` (the module-level
+    `random.choices` is a bound method of `random._inst` and calls `self.random()`)"""
+    from scenic.core.distributions import Options, RejectionException
+    inst = random._inst
+    had = "random" in inst.__dict__
+    old = inst.__dict__.get("random")
+    inst.random = lambda: float(u)
+    try:
+        try:
+            d = Options({v: (int(w) if w.denominator == 1 else float(w)) for v, w in opts})
+            return "picked " + str(d.sample())
+        finally:
+            if had:
+                inst.random = old
+            else:
+                del inst.__dict__["random"]
+    except ValueError as e:
+        return "neg" if "negative" in str(e) else "crash"
+    except RejectionException:
+        return "empty"
+    except Exception:
+        return "crash"
+
+
+def gen_options(rng):
+    n = rng.choice([0, 1, 1, 2, 2, 3, 3, 4, 5, 6])
+    vals = rng.sample(range(-3, 20), n)
+    opts = []
+    for v in vals:
+        r = rng.random()
+        w = Fraction(0) if r < 0.15 else Fraction(rng.choice(WEIGHTS))
+        opts.append((v, w))
+    r = rng.random()
+    if opts and r < 0.05:      # malformed stream: a negative weight, all weights zero
+        i = rng.randrange(len(opts))
+        opts[i] = (opts[i][0], Fraction(-1, rng.choice([1, 2, 4])))
+    elif opts and r < 0.09:
+        opts = [(v, Fraction(0)) for v, _ in opts]
+    return opts
+
+
+def select_measure(opts):
+    """the statement, directly on the real code: among the raw uniform values (an ideal uniform `random()`), the share that
+    makes `Options(opts)` return `v` must be w_v / total.  All weights are multiples of 1/8, so every interval end of any
+    cumulative-weight implementation is a multiple of 1/M with M = 8*total: the M cell midpoints measure the shares
+    exactly.  -> (real shares, stated shares) or None when not applicable"""
+    if not opts or any(w < 0 for _, w in opts):
+        return None
+    tot = sum(w for _, w in opts)
+    M = 8 * tot
+    if tot <= 0 or M.denominator != 1 or M > 480:
+        return None
+    M = int(M)
+    real = {}
+    for j in range(M):
+        r = real_select(opts, Fraction(2 * j + 1, 2 * M))
+        real[r] = real.get(r, 0) + Fraction(1, M)
+    want = {"picked " + str(v): w / tot for v, w in opts if w != 0}
+    return real, want
+
+
+def corr_select(ctx):
+    """(C) `optionsSelect` on the generated constants vs the real `Options(...).sample()` with `random()` patched, on
+    boundary-dense raw values; (S) the measure of the raw values selecting each option vs weight/total"""
+    rng = ctx.rng
+    lines, py, cases = [], [], []
+    found = False
+    nmeasure = 0
+    for _ in range(ctx.budget(400, 4000)):
+        opts = gen_options(rng)
+        pos = [w for _, w in opts if w > 0]
+        tot = sum(pos) if pos else Fraction(1)
+        cands = [Fraction(0), Fraction(1, 2), Fraction(rng.randrange(1024), 1024), Fraction(1023, 1024),
+                 Fraction(2 ** 30 - 1, 2 ** 30)]
+        acc = Fraction(0)
+        for w in pos:
+            acc += w
+            cands += [acc / tot, acc / tot - Fraction(1, 2 ** 20), acc / tot + Fraction(1, 2 ** 20)]
+        # only raw values for which the float computation `random() * total` of CPython is exact
+        cands = [u for u in cands if 0 <= u < 1 and Fraction(float(u)) == u
+                 and Fraction(float(u) * float(tot)) == u * tot]
+        u = rng.choice(cands)
+        lines.append("C19 osel {}/{} {}".format(u.numerator, u.denominator, " ".join(
+            f"{v} {w.numerator}/{w.denominator}" for v, w in opts)))
+        py.append("ok " + real_select(opts, u))
+        cases.append((opts, u))
+        ctx.case(("osel", tuple(opts), u), nontrivial=len(pos) >= 2)
+        ctx.hist("options_select", py[-1].split()[1] + f" n={len(opts)}")
+        if nmeasure < ctx.budget(40, 400) and not found:
+            m = select_measure(opts)
+            if m is not None:
+                nmeasure += 1
+                real, want = m
+                if real != want:
+                    what = ("Options({}) under an ideal uniform random(): shares of the raw values per result {} but "
+                            "weight/total is {}").format({v: str(w) for v, w in opts},
+                                                         {k: str(p) for k, p in sorted(real.items())},
+                                                         {k: str(p) for k, p in sorted(want.items())})
+                    if ctx.violation("select-measure", what,
+                                     {"kind": "select", "opts": [[v, f"{w.numerator}/{w.denominator}"] for v, w in opts]}):
+                        found = True
+    try:
+        out = ctx.driver(lines)
+    except Infra:
+        out = None
+    bad = 0
+    if out is not None:
+        for ln, a, b in zip(lines, out, py):
+            ctx.evaluations += 1
+            if a != b:
+                bad += 1
+                if bad <= 3:
+                    ctx.broken("correspondence", "optionsSelect vs Options(...).sample() with random() patched",
+                               f"{ln}: lean={a} python={b}")
+        ctx.hist("options_select", "agree", len(lines) - bad)
+        if bad:
+            ctx.hist("options_select", "DISAGREE", bad)
+    ctx.extra["select_cases"] = len(lines)
+    ctx.extra["select_measure_checks"] = nmeasure
+    ctx.extra["select_disagreements"] = bad
+    return found
+
+
 def direct_api(ctx):
     """run-time sampling through the public API: a distribution object constructed while a simulation is in
     progress must be a plain sampled value, and two evaluations of one expression must be separate draws"""
@@ -1056,6 +1192,7 @@ def run(ctx):
             break
     if driver_ok:
         corr_choices(ctx)
+    found |= corr_select(ctx) if driver_ok else False
     found |= direct_api(ctx)
     ctx.extra["oracle_undecided"] = state["undecided"]
     nskip = sum(len(v) for v in state["skipped"].values())
@@ -1111,6 +1248,18 @@ def replay(ctx, path):
         except Undecided:
             print("statement undecided for this program")
             return 0
+    if rep.get("kind") == "select":
+        opts = [(v, Fraction(w)) for v, w in rep["opts"]]
+        m = select_measure(opts)
+        if m is None:
+            print("not applicable")
+            return 0
+        real, want = m
+        print("Options(%s): share of the raw uniform values per result" % {v: str(w) for v, w in opts})
+        for k in sorted(set(real) | set(want)):
+            print(f"  {k}: real {real.get(k, 0)}  stated {want.get(k, 0)}")
+        print("DIFFERENCE" if real != want else "no difference")
+        return 1 if real != want else 0
     if rep.get("kind") == "api":
         class C:  # minimal stand-in for ctx
             def violation(self, key, what, rep):
